@@ -175,10 +175,18 @@ def synthetic_frames(draw: Any, ctl: str, n: int) -> list[str]:
 
     hx2 = st.text("0123456789ABCDEF", min_size=2, max_size=2)
     out: list[str] = []
+    # 'focused' bursts (half of them): the controller first declares ONE zone of a drawn class (a 0005 whose mask has just that bit), and
+    # most of the frames that follow are about that zone - so that 'a zone of class X, then message Y for it with an extreme value'
+    # happens by construction rather than when two independent draws happen to agree
+    fz = draw(st.integers(0, 11)) if draw(st.booleans()) else None
+    if fz is not None:
+        fcls = draw(st.sampled_from(("08", "09", "0A", "0B", "11", "04")))
+        out.append(f" I --- {ctl} --:------ {ctl} 0005 004 00{fcls}{(1 << fz) & 0xFF:02X}{(1 << fz) >> 8:02X}")
     for _ in range(n * 3):
         if len(out) >= n:
             break
         t = draw(st.sampled_from(_SYN))
+        zfocus = fz is not None and draw(st.integers(0, 3)) > 0
         otid = draw(st.integers(0, 127))
         otv = draw(st.sampled_from((0, 0xFFFF, 0x7FFF, 0x8000, 0x0100)))
         b1 = draw(st.sampled_from((0x40, 0x70, 0x60, 0x50)))
@@ -188,7 +196,7 @@ def synthetic_frames(draw: Any, ctl: str, n: int) -> list[str]:
             ctl=ctl, gwy="18:006402", ufc="02:001107", trv=f"04:0560{draw(st.integers(50, 59))}", thm="34:092243", bdr=f"13:04979{draw(st.integers(0, 9))}",
             otb="10:048122", cls=draw(st.sampled_from(("08", "09", "0A", "0B", "11", "04", "00", "0D", "0F"))),
             m1=draw(st.sampled_from(("00", "01", "0F", "FF", "08"))), m2=draw(st.sampled_from(("00", "0F", "08", "FF"))),
-            zz=f"{draw(st.integers(0, 11)):02X}", zz2=f"{draw(st.integers(0, 15)):02X}", u=f"{draw(st.integers(0, 7)):02X}", u2=f"{draw(st.integers(0, 7)):02X}",
+            zz=f"{fz if zfocus else draw(st.integers(0, 11)):02X}", zz2=f"{draw(st.integers(0, 15)):02X}", u=f"{draw(st.integers(0, 7)):02X}", u2=f"{draw(st.integers(0, 7)):02X}",
             pct=draw(st.one_of(st.sampled_from(PCT), hx2)), pct2=draw(st.sampled_from(PCT)), tmp=draw(st.sampled_from(TMP)), tmp2=draw(st.sampled_from(TMP)),
             dom=draw(st.sampled_from(("00", "03", "0B", "F9", "FA", "FC"))), b=draw(st.sampled_from(("00", "01", "FF", "02"))), b7=draw(st.sampled_from(("00", "7F"))),
             mode=draw(st.sampled_from(("00", "01", "02", "03", "04", "05"))), smode=draw(st.sampled_from(("00", "01", "02", "03", "04", "07"))),
